@@ -443,7 +443,7 @@ class Joiner:
                         break
         # pairwise relations between new symbols: if the sum (difference) of two generalised values is the
         # same expression over common symbols on both sides, the second symbol is *defined* by the first
-        n = self.news[:8]
+        n = self.news[:16]
         sub = {}
         for i in range(len(n)):
             for j in range(i + 1, len(n)):
